@@ -77,6 +77,8 @@ class Scratch:
             layout = os.path.join(self.dir, "kv_layout.rs")
             write_layout(layout)
             extra += '\n#[cfg(kani)] #[path = "%s"] pub(crate) mod kv_layout;\n' % layout
+            self.write_cfg(False)
+            extra += '\n#[cfg(kani)] #[path = "%s"] pub(crate) mod kv_cfg;\n' % os.path.join(self.dir, "kv_cfg.rs")
             gen = os.path.join(self.dir, "kv_gen.rs")
             write_gen(gen)
             extra += '\n#[cfg(kani)] #[path = "%s"] pub(crate) mod kv_gen;\n' % gen
@@ -84,6 +86,10 @@ class Scratch:
             # inner attributes must precede everything but comments/doc comments;
             # lib.rs starts with //! docs, so put the attribute at the very top.
             f.write('#![recursion_limit = "2048"]\n#![cfg_attr(kani, feature(allocator_api))]\n' + src + extra)
+
+    def write_cfg(self, dump):
+        with open(os.path.join(self.dir, "kv_cfg.rs"), "w") as f:
+            f.write("pub const DUMP: bool = %s;\n" % ("true" if dump else "false"))
 
     def cleanup(self):
         if not self.keep:
@@ -324,7 +330,7 @@ def full_name(scratch, group, harness):
 
 
 def run_kani(scratch, harness, *, group=None, timeout=900, mem_gb=14, unwind_rules=None, extra_args=(),
-             default_unwind=None, playback=False):
+             default_unwind=None, playback=False, trace=False):
     """Run one harness; returns KaniResult.  Never raises on solver trouble."""
     res = KaniResult(harness)
     t0 = time.time()
@@ -345,6 +351,8 @@ def run_kani(scratch, harness, *, group=None, timeout=900, mem_gb=14, unwind_rul
             entries, _n = synth_unwindset(goto, unwind_rules)
             if entries:
                 cbmc_args += ["--unwindset", ",".join(entries)]
+    if trace:
+        cbmc_args += ["--trace"]
     if cbmc_args:
         cmd += ["--cbmc-args"] + cbmc_args
     limit_kb = int(mem_gb * 1024 * 1024)
